@@ -545,3 +545,74 @@ def guarded(ctx, fn, idx):
         tb = traceback.extract_tb(e.__traceback__)[-1]
         r = ctx.rule('%s.INTERNAL' % fn.__name__.upper(), 'the rule could be evaluated')
         r.undecided('<checker>', 'internal error in %s: %s: %s (%s:%d)' % (fn.__name__, type(e).__name__, e, tb.filename.split('/')[-1], tb.lineno))
+
+
+# ------------------------------------------------------------ cost as a function of the grade
+LOSSY_CALLS = {'int', 'round', 'floor', 'ceil', 'trunc', 'rint', 'around', 'fix', 'bool', 'sign'}
+IDENTITY_CALLS = {'float'}
+
+
+def affine_in_grade(expr, is_grade):
+    """Symbolic (exact-arithmetic) form of a cost expression as a function of one grade g.
+
+    -> ('affine', a, b)     cost == a*g + b with numeric a, b
+       ('lossy', text)      a non-injective wrapper (int, round, floor, ceil, //, %) around something that depends on g
+       None                 anything else (not recognised)
+    `is_grade(node)` says whether a node *is* the grade (e.g. result['grade_decimal'])."""
+    e = expr
+
+    def num(x):
+        return x.value if isinstance(x, ast.Constant) and isinstance(x.value, (int, float)) and not isinstance(x.value, bool) else None
+
+    def go(x):
+        if is_grade(x):
+            return ('affine', 1.0, 0.0)
+        if num(x) is not None:
+            return ('affine', 0.0, float(num(x)))
+        if isinstance(x, ast.UnaryOp) and isinstance(x.op, (ast.USub, ast.UAdd)):
+            r_ = go(x.operand)
+            if r_ and r_[0] == 'affine':
+                s_ = -1.0 if isinstance(x.op, ast.USub) else 1.0
+                return ('affine', s_ * r_[1], s_ * r_[2])
+            return r_
+        if isinstance(x, ast.BinOp):
+            l, rr = go(x.left), go(x.right)
+            for side in (l, rr):
+                if side and side[0] == 'lossy':
+                    return side
+            if isinstance(x.op, (ast.FloorDiv, ast.Mod)):
+                if (l and l[0] == 'affine' and l[1] != 0) or (rr and rr[0] == 'affine' and rr[1] != 0):
+                    return ('lossy', '`%s` (%s)' % (short(x), '//' if isinstance(x.op, ast.FloorDiv) else '%'))
+                return None
+            if l is None or rr is None:
+                return None
+            if isinstance(x.op, ast.Add):
+                return ('affine', l[1] + rr[1], l[2] + rr[2])
+            if isinstance(x.op, ast.Sub):
+                return ('affine', l[1] - rr[1], l[2] - rr[2])
+            if isinstance(x.op, ast.Mult):
+                if l[1] == 0:
+                    return ('affine', l[2] * rr[1], l[2] * rr[2])
+                if rr[1] == 0:
+                    return ('affine', rr[2] * l[1], rr[2] * l[2])
+                return None
+            if isinstance(x.op, ast.Div):
+                if rr[1] == 0 and rr[2] != 0:
+                    return ('affine', l[1] / rr[2], l[2] / rr[2])
+                return None
+            return None
+        if isinstance(x, ast.Call) and not x.keywords or isinstance(x, ast.Call):
+            name = nf.callee_name(x)
+            if name in IDENTITY_CALLS and len(x.args) == 1:
+                return go(x.args[0])
+            if name in LOSSY_CALLS and x.args:
+                inner = go(x.args[0])
+                if inner and inner[0] == 'lossy':
+                    return inner
+                if inner and inner[0] == 'affine' and inner[1] != 0:
+                    return ('lossy', '`%s(...)`' % name)
+                if inner is None and any(is_grade(n) for n in ast.walk(x.args[0])):
+                    return ('lossy', '`%s(...)`' % name)
+            return None
+        return None
+    return go(e)
